@@ -411,6 +411,15 @@ pub fn run_property(prop: Property, make_gens: impl FnOnce(&Ctx) -> Vec<Gen<'sta
     }
     let replay_dir = verif_root().join("replay");
     std::fs::create_dir_all(&replay_dir).ok();
+    // remove stale witnesses of the same property / tier / seed
+    if let Ok(rd) = std::fs::read_dir(&replay_dir) {
+        let prefix = format!("{}-{}-{}-", prop.id, tier.name(), ctx.seed);
+        for e in rd.flatten() {
+            if e.file_name().to_string_lossy().starts_with(&prefix) {
+                std::fs::remove_file(e.path()).ok();
+            }
+        }
+    }
     let mut lines: Vec<String> = vec![];
     for (n, (g, i, v)) in new_viol.iter().enumerate() {
         let path = replay_dir.join(format!("{}-{}-{}-{}.json", prop.id, tier.name(), ctx.seed, n));
